@@ -58,6 +58,16 @@ def check_year(y, prev):
             js.append(None)
             continue
         js.append(j)
+        if y % 7 == 0:
+            # the returned Epoch belongs to the caller: moving it must not move the next answer
+            try:
+                e.set(2000, 1, 1.5)
+                j2 = Sun.get_equinox_solstice(y, t).jde()
+                if j2 != j:
+                    out.append(("season_aliasing", "get_equinox_solstice(%d, %r) returns JDE %r after the caller moved the "
+                                "Epoch returned by the previous call (was %r)" % (y, t, j2, j), abs(j2 - j)))
+            except Exception as ex:
+                out.append(("season_exception", "second get_equinox_solstice(%d, %r) raised %r" % (y, t, ex), None))
         d = abs(wrap180(lon._deg - 90.0 * k))
         if d > 1e-5:
             out.append(("season_longitude", "get_equinox_solstice(%d, %r): apparent longitude of the Sun is %r, "
@@ -184,6 +194,71 @@ def check_eot_year(y):
             stats["nt"] += 1
         prev = vals
     return out, stats
+
+
+# -- the (minutes, seconds) decomposition at its own seam: instants where E passes a whole minute --------------
+
+EOT_SEAM_YEARS = [-2000, -1000, 0, 352, 1000, 1582, 1900, 2000, 2024, 2100, 3000, 3999]
+EOT_DELTAS = [1e-9, 1e-8, 1e-7, 1e-6, 1e-5, 1e-4]       # days (86 microseconds .. 8.6 s)
+
+
+def _eot_signed(j, near):
+    """Equation of time in minutes at JDE j, the sign of a (0, s) result resolved by the neighbour value."""
+    ms = Sun.equation_of_time(Epoch(j))
+    vals = eot_values(ms)
+    return min(vals, key=lambda v: abs(v - near))
+
+
+def check_eot_seam(case):
+    """Within year y, every instant at which the equation of time equals a whole number of minutes is
+    located by bisection (on daily brackets); microseconds to seconds either side of it the value must
+    be continuous: the seconds field runs up to 59.99.. on one side and restarts at 0 on the other, with
+    the minutes carried."""
+    y = case["year"]
+    out = []
+    n0 = fast().n(y, 1, 1)
+    n1 = fast().n(y + 1, 1, 1)
+    prev = None
+    seams = 0
+    for n in range(n0, n1 + 1):
+        j = n - 0.5
+        try:
+            v = _eot_signed(j, prev[1] if prev else 0.0)
+        except Exception as ex:
+            out.append(("eot_exception", "equation_of_time at JDE %r raised %r" % (j, ex), None))
+            prev = None
+            continue
+        if prev is not None and math.floor(v) != math.floor(prev[1]) and abs(v - prev[1]) < 0.75:
+            k = max(math.floor(v), math.floor(prev[1]))         # the whole minute crossed
+            lo, hi, vlo = prev[0], j, prev[1]
+            for _ in range(48):
+                mid = (lo + hi) / 2.0
+                vm = _eot_signed(mid, vlo)
+                if (vm - k) * (vlo - k) > 0:
+                    lo, vlo = mid, vm
+                else:
+                    hi = mid
+            seams += 1
+            for d in EOT_DELTAS:
+                a, b = _eot_signed(hi - d, k), _eot_signed(hi + d, k)
+                rate = abs(v - prev[1])                           # minutes per day
+                if abs(a - b) * 60.0 > 0.5 + 2.0 * d * rate * 60.0:
+                    out.append(("eot_seam", "equation of time jumps from %.6f to %.6f min across the instant it "
+                                "passes %d min (JDE %r -+ %g d)" % (a, b, k, hi, d), abs(a - b) * 60.0))
+                    break
+        prev = (j, v)
+    return out, seams
+
+
+def run_eot_seams(block, ctx):
+    for case in block:
+        res, seams = check_eot_seam(case)
+        ctx.evals += 370 + seams * (48 + 2 * len(EOT_DELTAS))
+        ctx.nt_count += seams
+        for site, msg, dev in res:
+            ctx.viol(case, msg, dev=dev, site=site)
+        ctx.outcome((case["year"], seams))
+    ctx.sample(block[0])
 
 
 def run_eot(block, ctx):
@@ -355,6 +430,31 @@ def rts_cases():
             for lw in LONW for la in PHIS for a0 in A0S for d0 in D0S for mo in MOTIONS for h0 in H0S]
 
 
+RTS_SEAM_EPS = [1e-4, -1e-4, 5e-4, -5e-4, 1.4e-3, -1.4e-3, 4e-3, -4e-3]      # days: 9 s .. 6 min
+
+
+def rts_seam_cases():
+    """Right ascensions chosen so that the first approximation of the transit, the rising or the setting
+    falls seconds to minutes before / after 0h = 24h UT, where the day fraction wraps."""
+    out = []
+    for lw in (71.0833, -120.0):
+        for la in (0.0, 42.3333, -60.0):
+            for d0 in (-18.0, 18.44):
+                for mo in MOTIONS:
+                    for h0 in (-0.5667,):
+                        cosH = (math.sin(math.radians(h0)) - math.sin(math.radians(la)) * math.sin(math.radians(d0))) / \
+                            (math.cos(math.radians(la)) * math.cos(math.radians(d0)))
+                        if abs(cosH) > 0.8:
+                            continue
+                        H0 = math.degrees(math.acos(cosH))
+                        for ev, sh in (("transit", 0.0), ("rise", H0), ("set", -H0)):
+                            for eps in RTS_SEAM_EPS:
+                                a0 = (THETA0 - lw + sh + 360.0 * (1.0 - eps)) % 360.0
+                                out.append({"lon_w": lw, "lat": la, "a0": a0, "d0": d0, "motion": list(mo), "h0": h0,
+                                            "seam": ev, "eps": eps})
+    return out
+
+
 def run_rts(block, ctx):
     for case in block:
         ctx.evals += 1
@@ -362,7 +462,7 @@ def run_rts(block, ctx):
         for site, msg, dev in res:
             ctx.viol(case, msg, dev=dev, site=site)
             ctx.maxi(site, dev)
-        if case["a0"] > 350 or abs(case["d0"]) >= 60:
+        if case.get("seam") or case["a0"] > 350 or abs(case["d0"]) >= 60:
             ctx.nt_count += 1
         ctx.outcome((case["lat"], case["d0"], len(res)))
     ctx.sample(block[0])
@@ -410,9 +510,14 @@ def clauses(tier):
         Clause("season_range", [0], run_season_range, check_season_range, floor=4),
         Clause("equation_of_time", chunks(eot_years, 64), run_eot,
                lambda c: [r[1] for r in check_eot_year(c["year"])[0]], floor=50),
+        Clause("eot_minute_seams", [[{"year": y}] for y in (EOT_SEAM_YEARS if tier != "thorough" else
+                                                             sorted(set(EOT_SEAM_YEARS + list(range(-2000, 4000, 40)))))],
+               run_eot_seams, lambda c: [r[1] for r in check_eot_seam(c)[0]], floor=100),
         Clause("sunrise_sunset", chunks(riseset_cases(), 32), run_riseset,
                lambda c: [m for _, m, _ in check_riseset(c)], floor=100),
         Clause("rise_transit_set", chunks(rts_cases(), 32), run_rts,
+               lambda c: [m for _, m, _ in check_rts(c)], floor=200),
+        Clause("rts_day_seam", chunks(rts_seam_cases(), 16), run_rts,
                lambda c: [m for _, m, _ in check_rts(c)], floor=200),
         Clause("rts_threshold", chunks(threshold_cases(tier), 32), run_threshold,
                lambda c: [m for _, m, _ in check_rts(c)], floor=200),
